@@ -1111,7 +1111,8 @@ def _rule_o_p_q_order(repo: Repo, rep: Report, tm, lm) -> None:
         rep.ob(rq, tm, "Literal." + name, "accepts the same term (%s == %s)" % (s_, o_), refl,
                "" if refl else "%s falls back on value equality eq() only, which is not reflexive: Literal(float('nan')) %s Literal(float('nan')) is False for one and the same term"
                % (name, "<=" if name == "__le__" else ">="), node=fn)
-    swapped = ast.unparse(ast.Module(body=le.body, type_ignores=[])).replace("__lt__", "__gt__")
+    # the mirror image: every __lt__ becomes __gt__ and every __gt__ becomes __lt__ (both may occur: `< decides, else eq, else not >`)
+    swapped = ast.unparse(ast.Module(body=le.body, type_ignores=[])).replace("__lt__", "\0").replace("__gt__", "__lt__").replace("\0", "__gt__")
     mirror = H_canon_body(swapped) == H_canon_body(ast.unparse(ast.Module(body=ge.body, type_ignores=[])))
     rep.ob(rq, tm, "Literal.__le__/__ge__", "same body up to __lt__/__gt__", mirror,
            "" if mirror else "__le__ and __ge__ decide differently: for some pair a <= b is not b >= a", node=le)
